@@ -27,9 +27,10 @@ CLAIMS = {
         "finite-domain abstract evaluation of the cast decision procedure's expression trees against an independent IEEE/integer inclusion reference + path-condition dominance of the rewrite",
         "The decision procedure `_cast_roundtrip_is_value_preserving` (with its format table and helper predicates) is evaluated symbolically over all 27x27 pairs of onnx_ir "
         "element types; whenever it answers True, an independently computed reference (exact integer ranges, IEEE-754/bfloat16 value-set inclusion with generator values) must "
-        "confirm that every source value survives T->U->T. The integer range proof is checked on boundary intervals for every integer type pair, and the Cast->Cast rewrite must be "
+        "confirm that every source value survives T->U->T. The integer range proof is checked on boundary intervals for every integer type pair, its pass-through operator set must be value-set preserving, "
+        "the Range closed form must bound every emitted value for all (start, limit, delta) in a bounded box, and the Cast->Cast rewrite must be "
         "dominated by `next_target == src_dtype` and the decision called with (source dtype, first target). Exhaustive on the decision function's finite domain.",
-        "Not decided: the closed form for Range bounds in `_known_integer_value_bounds`, ONNX Runtime's actual Cast semantics (saturation, NaN payload), float8/4-bit/string types "
+        "Not decided: the Range closed form outside the enumerated box [-7,7]^2 x [-4,4], ONNX Runtime's actual Cast semantics (saturation, NaN payload), float8/4-bit/string types "
         "(a True decision there is UNRESOLVED). Trusted: onnx_ir.DataType member facts, the frozen IEEE parameter table, the restricted evaluator (unsupported syntax -> UNRESOLVED).",
         "DESIGN.md §3 C17",
     ),
